@@ -161,6 +161,21 @@ OpensViol(g2, ev) ==
              ELSE {})
          : i \in judged }
 
+\* attributes an operation's policy talks about (for the alias cause)
+OpUids(ev) ==
+    CASE ev.op \in {"rekey", "prune", "keygen"} ->
+           IF UserPolWellFormed(ev.pol) /\ UserPolV(g, ev.pol)
+           THEN UNION GrantCombos(g.st, g.attrs, ev.pol) ELSE {}
+      [] ev.op = "encaps" ->
+           IF ev.mpk \in DOMAIN g.mpks /\ EncPolValid(g.mpks[ev.mpk].st, g.mpks[ev.mpk].attrs, ev.pol)
+           THEN UNION {ClauseCombo(g.mpks[ev.mpk].st, g.mpks[ev.mpk].attrs, ev.pol[i]) : i \in 1..Len(ev.pol)}
+           ELSE {}
+      [] ev.op = "update" -> LiveUids(g.st)
+      [] ev.op = "recaps" ->
+           IF ev.from \in DOMAIN g.enc THEN UNION {x.c : x \in g.enc[ev.from].tgx} ELSE {}
+      [] OTHER -> {}
+OpCause(ev, dflt) == IF AliasBetween(OpUids(ev), DOMAIN ids) THEN "alias" ELSE dflt
+
 \* C09 contract and C06 (publishing a disabled right), C10, C18 details
 ContractViol(ev, v) ==
     LET res == ev.res
@@ -177,7 +192,7 @@ ContractViol(ev, v) ==
                          \cup (IF ev.op = "recaps" THEN {"C18"} ELSE {})
                          \cup (IF ev.op = "refresh" /\ v = "err" /\ res = "ok" THEN {"C08", "C17"} ELSE {})
     IN (IF res # "skip" /\ (bad \/ mism)
-        THEN {Vio(props, "call result differs from its contract", res, <<ev.op, v, res, Get(ev, "errk", "")>>)}
+        THEN {Vio(props, "call result differs from its contract", OpCause(ev, res), <<ev.op, v, res, Get(ev, "errk", "")>>)}
         ELSE {})
        \cup
        (IF res \in {"err", "panic"} /\ Has(ev, "unchanged") /\ ~ev.unchanged
@@ -346,6 +361,7 @@ OpenedFrom(ev) ==
     IN [u \in U |-> {rows[i].e : i \in {j \in 1..Len(rows) : rows[j].u = u /\ rows[j].r = "same"}}]
 
 Reset(ev) ==
+    /\ PrintT(<<"PTRACE-HIST", hist, ToJson(stats)>>)
     /\ g' = GInit
     /\ sync' = TRUE
     /\ opened' = EmptyFn
@@ -393,6 +409,7 @@ Next ==
     \/ /\ l = Len(Rec) + 1
        /\ ~done
        /\ done' = TRUE
+       /\ PrintT(<<"PTRACE-HIST", hist, ToJson(stats)>>)
        /\ PrintT(<<"PTRACE-STATS", ToJson(stats)>>)
        /\ \A x \in viol : PrintT(<<"PTRACE-VIOL", ToJson(x)>>)
        /\ PrintT(<<"PTRACE-DONE", l - 1, Cardinality(viol)>>)
